@@ -19,6 +19,7 @@ import (
 	"errors"
 	"net"
 	"sync"
+	"sync/atomic"
 	"time"
 
 	"github.com/caddyserver/caddy/v2"
@@ -118,7 +119,8 @@ func (cx *Connection) Read(p []byte) (n int, err error) {
 
 func (cx *Connection) Write(p []byte) (n int, err error) {
 	n, err = cx.Conn.Write(p)
-	cx.bytesWritten += uint64(n)
+	// the proxy handler writes to the connection from one goroutine per upstream peer
+	atomic.AddUint64(&cx.bytesWritten, uint64(n))
 	return
 }
 
@@ -139,7 +141,7 @@ func (cx *Connection) Wrap(conn net.Conn) *Connection {
 		Logger:       cx.Logger,
 		matching:     cx.matching,
 		bytesRead:    cx.bytesRead,
-		bytesWritten: cx.bytesWritten,
+		bytesWritten: atomic.LoadUint64(&cx.bytesWritten),
 	}
 }
 
